@@ -170,6 +170,161 @@ def fork_call(fn, *args, **kwargs):
 
 
 # --------------------------------------------------------------------------
+# zygote: every pristine child of a worker is forked from a process whose heap never changes
+
+class Zygote(object):
+    """A child of the worker, forked right after the imports, that does nothing but fork
+    grandchildren on request.  The worker's own heap changes all the time (reference caches,
+    statistics), and with it the memory layout a directly forked child would start from; then
+    anything that depends on object addresses (id()-keyed caches, address reuse after garbage
+    collection) would depend on how long the worker has been running and would not replay.
+    The zygote allocates nothing between requests (requests are read into a preallocated
+    buffer, results go through a file that only the grandchild and the worker touch), so every
+    grandchild starts from the same heap and one seed is one execution, addresses included."""
+
+    BUF = 4 << 20
+
+    def __init__(self):
+        self.req_r, self.req_w = os.pipe()
+        self.st_r, self.st_w = os.pipe()
+        base = '/dev/shm' if os.path.isdir('/dev/shm') and os.access('/dev/shm', os.W_OK) else '/tmp'
+        self.res_path = os.path.join(base, 'verif-zygote-%d-%d.res' % (os.getpid(), id(self) & 0xffff))
+        sys.stdout.flush()
+        sys.stderr.flush()
+        self.pid = os.fork()
+        if self.pid == 0:
+            try:
+                os.close(self.req_w)
+                os.close(self.st_r)
+                self._serve()
+            finally:
+                os._exit(0)
+        os.close(self.req_r)
+        os.close(self.st_w)
+
+    # ---- zygote side
+    def _serve(self):
+        buf = bytearray(self.BUF)
+        mv = memoryview(buf)
+        hdr = bytearray(8)
+        hmv = memoryview(hdr)
+        while True:
+            got = 0
+            while got < 8:
+                n = os.readv(self.req_r, [hmv[got:]])
+                if n == 0:
+                    return
+                got += n
+            size = int.from_bytes(hdr, 'big')
+            got = 0
+            while got < size:
+                n = os.readv(self.req_r, [mv[got:size]])
+                if n == 0:
+                    return
+                got += n
+            pid = os.fork()
+            if pid == 0:
+                code = 0
+                try:
+                    import gc
+                    gc.collect()         # same collector counters at the start of every execution
+                    msg = json.loads(bytes(mv[:size]).decode('utf-8'))
+                    signal.signal(signal.SIGALRM, signal.SIG_DFL)
+                    signal.alarm(int(msg['wall']) + 5)
+                    try:
+                        fn = getattr(get_module(msg['mod']) if msg['mod'] in ('C09', 'C14', 'C15', 'C17')
+                                     else __import__(msg['mod']), msg['fn'])
+                        res = ('ok', fn(*msg['args']))
+                    except BaseException:
+                        res = ('exc', traceback.format_exc())
+                    try:
+                        data = json.dumps(res).encode('utf-8')
+                    except BaseException:
+                        data = json.dumps(('exc', 'unserialisable result: ' + traceback.format_exc())).encode('utf-8')
+                    with open(self.res_path, 'wb') as f:
+                        f.write(data)
+                except BaseException:
+                    code = 3
+                finally:
+                    os._exit(code)
+            _, st = os.waitpid(pid, 0)
+            # fixed-size status frame: 'S' + 7 digits of the wait status
+            os.write(self.st_w, b'S%07d' % (st & 0xffffff))
+
+    # ---- worker side
+    def call(self, mod, fn, args, wall):
+        data = json.dumps({'mod': mod, 'fn': fn, 'args': args, 'wall': wall}).encode('utf-8')
+        if len(data) > self.BUF:
+            raise HarnessError("request too large for the zygote buffer")
+        try:
+            os.unlink(self.res_path)
+        except OSError:
+            pass
+        os.write(self.req_w, len(data).to_bytes(8, 'big'))
+        off = 0
+        while off < len(data):
+            off += os.write(self.req_w, data[off:off + 65536])
+        got = b''
+        deadline = time.time() + wall + 20
+        while len(got) < 8:
+            left = deadline - time.time()
+            r, _, _ = select.select([self.st_r], [], [], max(left, 0))
+            if not r:
+                self.kill()
+                return ('timeout', None)
+            b = os.read(self.st_r, 8 - len(got))
+            if not b:
+                return ('died', 'zygote gone')
+            got += b
+        st = int(got[1:])
+        if os.WIFSIGNALED(st) and os.WTERMSIG(st) == signal.SIGALRM:
+            return ('timeout', None)
+        try:
+            with open(self.res_path, 'rb') as f:
+                payload = f.read()
+            os.unlink(self.res_path)
+        except OSError:
+            return ('died', 'child exit status %r, no result' % (st,))
+        if st != 0:
+            return ('died', 'child exit status %r' % (st,))
+        try:
+            res = json.loads(payload.decode('utf-8'))
+        except ValueError:
+            return ('died', 'truncated result (%d bytes)' % len(payload))
+        return (res[0], res[1])
+
+    def kill(self):
+        try:
+            os.kill(self.pid, signal.SIGKILL)
+        except OSError:
+            pass
+        try:
+            os.waitpid(self.pid, 0)
+        except OSError:
+            pass
+        self.pid = None
+
+    def close(self):
+        try:
+            os.close(self.req_w)
+        except OSError:
+            pass
+        if self.pid:
+            try:
+                os.waitpid(self.pid, 0)
+            except OSError:
+                pass
+        try:
+            os.close(self.st_r)
+        except OSError:
+            pass
+        try:
+            os.unlink(self.res_path)
+        except OSError:
+            pass
+
+
+# --------------------------------------------------------------------------
 # property modules
 
 _MODULES = {}
